@@ -63,7 +63,17 @@ Section Truth.
   Proof.
     pose proof Hcf as Hc. unfold conflict_free in Hc.
     apply andb_prop in Hc. destruct Hc as [Hc H4]. apply andb_prop in Hc. destruct Hc as [Hc H3].
-    apply andb_prop in Hc. destruct Hc as [H1 H2]. split; assumption.
+    apply andb_prop in Hc. destruct Hc as [H1 H2]. apply andb_prop in H1. destruct H1 as [H0 H1]. split; assumption.
+  Qed.
+
+  Lemma anc_ticks c a : 0 <= c < ncommits h -> 0 <= a < ncommits h -> ancb (ancs h) c a = true ->
+    tick_of h a <= tick_of h c.
+  Proof.
+    intros Hc Ha E. pose proof Hcf as H0. unfold conflict_free in H0.
+    apply andb_prop in H0. destruct H0 as [H0 _]. apply andb_prop in H0. destruct H0 as [H0 _].
+    apply andb_prop in H0. destruct H0 as [H0 _]. apply andb_prop in H0. destruct H0 as [H0 _].
+    unfold anc_ticks_okb in H0. rewrite forallb_forall in H0. specialize (H0 c (proj2 (zrange_in _ _) Hc)).
+    rewrite forallb_forall in H0. specialize (H0 a (proj2 (zrange_in _ _) Ha)). rewrite E in H0. cbn in H0. lia.
   Qed.
 
   Lemma tick_nonneg c : 0 <= c < ncommits h -> 0 <= tick_of h c.
